@@ -8,6 +8,7 @@ mod ranges;
 mod terms;
 mod offline;
 mod heapq;
+mod solverb;
 mod serde_dom;
 mod solver;
 mod solver_replay;
@@ -66,6 +67,7 @@ fn main() {
                 "terms" | "bitset" => terms::eval(&sx),
                 "offline" => offline::eval(&sx),
                 "heap" => heapq::eval(&sx),
+                "solverb" => solverb::eval(&sx),
                 "serde" => serde_dom::eval(&sx),
                 "solver" | "faults" => solver::eval(&sx),
                 "report" | "collapse" => report::eval(&sx),
@@ -86,6 +88,7 @@ fn main() {
             "terms" | "bitset" => terms::generate(&mut out, &mut rng, thorough, domain),
             "offline" => offline::generate(&mut out, &mut rng, thorough),
             "heap" => heapq::generate(&mut out, &mut rng, thorough),
+            "solverb" => solverb::generate(&mut out, &mut rng, thorough),
             "serde" => serde_dom::generate(&mut out, &mut rng, thorough),
             "solver" | "faults" => solver::generate(&mut out, &mut rng, thorough, domain),
             "report" | "collapse" => report::generate(&mut out, &mut rng, thorough, domain),
